@@ -7,7 +7,7 @@
 From Coq Require Import List PArith ZArith Bool String.
 From SV Require Import SM.Store SM.StoreProofs SM.StoreCert SM.StoreCertProofs SM.StoreCopy SM.StoreCopyProofs
   SM.StoreExamples SM.KvAdd SM.KvAddProofs SM.StoreCopySrc SM.StoreCopySrcProofs SM.KvAddFresh SM.KvAddFreshProofs
-  SM.StoreCopyExport SM.StoreCopyExportProofs SM.OpPurity SM.OpPurityProofs SM.CollapseCensus SM.CollapseCensusProofs
+  SM.StoreCopyExport SM.StoreCopyExportProofs SM.StoreCopyFlow SM.StoreCopyFlowProofs SM.OpPurity SM.OpPurityProofs SM.CollapseCensus SM.CollapseCensusProofs
   Gen.CopyCensus_gen Gen.CopyExportReads_gen Gen.C09OpCensus_gen Gen.C09Collapse_gen.
 Import ListNotations.
 
@@ -323,3 +323,64 @@ Theorem c09_collapse_template_enter_refuted :
     steps (h1, [1%positive]) [MStore 2%positive [VAtom 128%Z]] (h2, [1%positive]) /\
     unfold 1 h2 (VRef 2%positive) <> unfold 1 cl_h (VRef 2%positive).
 Proof. exact collapse_template_enter_observable. Qed.
+
+(** ROUND 3 — ARGUMENT FLOWS THROUGH THE CONSTRUCTOR.  [flows_X] (Gen/CopyCensus_gen.v): for every field of the copy, how
+    the original's fields flow into it through the constructor SPECIALISED to the call copy() makes (defaults of the
+    parameters not given, the constructor's conditionals partially evaluated, properties of the source class inlined).
+    [copy_args_lossless] (instance obligation per class): a field that is carried over is fed by its own field and by
+    nothing else, through value-preserving steps only; a field that is not carried over is not computed from the
+    original at all. *)
+Theorem c09_derived_field_complete_iff : forall g : Z -> Z,
+  (forall z, field_complete g z) <-> (forall z, g z = z).
+Proof. exact derived_field_complete_iff. Qed.
+
+Theorem c09_args_lossless_rows : forall c fl, copy_args_lossless c fl = true ->
+  forall f k w, In (f, k, w) c -> needs_source w = true ->
+  (forall g m, In (g, m) (flows_of fl f) -> g = f /\ flow_harmless m = true) /\
+  (exists g m, In (g, m) (flows_of fl f) /\ flow_carries m = true).
+Proof. exact lossless_rows. Qed.
+
+Theorem c09_args_lossless_missing_reads_nothing : forall c fl, copy_args_lossless c fl = true ->
+  forall f k, In (f, k, HMissing) c -> flows_of fl f = [].
+Proof. exact lossless_missing_reads_nothing. Qed.
+
+(** Every admitted flow mode is complete on every truthy value, whatever a lossy path would compute ... *)
+Theorem c09_harmless_flow_complete : forall m d g z,
+  flow_harmless m = true -> z <> 0%Z -> field_complete (flow_fun m d g) z.
+Proof. exact harmless_flow_complete. Qed.
+
+(** ... and [p or default] exactly on those (or when the default is the falsy value itself). *)
+Theorem c09_or_default_complete_iff : forall d g z,
+  field_complete (flow_fun FOrDefault d g) z <-> (z <> 0%Z \/ d = 0%Z).
+Proof. exact flow_ordefault_complete_iff. Qed.
+
+Theorem c09_or_default_falsy_observable_refuted : forall d g, d <> 0%Z -> ~ field_complete (flow_fun FOrDefault d g) 0%Z.
+Proof. exact or_default_falsy_observable. Qed.
+
+(** The flow census refines the round-2 source census: lossless flows induce matching sources, so the round-2
+    theorems ([c09_sources_fields_rel], [c09_census_src_copy_independent]) apply to the induced source map. *)
+Theorem c09_args_lossless_sources_match : forall c fl,
+  copy_args_lossless c fl = true -> nodupb (names c) = true -> copy_sources_match c (flow_sources fl) = true.
+Proof. exact lossless_sources_match. Qed.
+
+(** The shape of seeded fault c09_4 ([Output(..., only_once=self.only_once)]): rejected, the field named, really lossy
+    (times = 3 comes back as -1) and invisible on the two values Hammer writes (1 and -1). *)
+Theorem c09_only_once_argument_lossy_refuted :
+  copy_args_lossless oo_census oo_flows = false /\ lossy_fields oo_census oo_flows = ["times"%string] /\
+  copy_args_lossless oo_census_claims_share oo_flows = false /\
+  copy_args_lossless oo_census_claims_share oo_flows_good = true /\
+  field_complete once_fn 1%Z /\ field_complete once_fn (-1)%Z /\ ~ field_complete once_fn 3%Z.
+Proof. exact only_once_argument_lossy. Qed.
+
+Definition all_args_lossless : bool :=
+  forallb (fun p => match lookup (fst p) all_flows with
+                    | Some fl => copy_args_lossless (snd p) fl
+                    | None => false end) all_census.
+
+Theorem c09_all_classes_args_lossless : all_args_lossless = true ->
+  forall label c, In (label, c) all_census ->
+  exists fl, lookup label all_flows = Some fl /\ copy_args_lossless c fl = true.
+Proof.
+  unfold all_args_lossless. rewrite forallb_forall. intros H label c Hin. specialize (H _ Hin). cbn [fst snd] in H.
+  destruct (lookup label all_flows) as [fl|] eqn:E; [|discriminate]. exists fl. split; [reflexivity | exact H].
+Qed.
